@@ -90,6 +90,78 @@ inductive Calm : Node → Prop
   | seq (n : Node) (h : n.name = "statements") (hk : ∀ c, some c ∈ n.children → Calm c) : Calm n
   | guard (n : Node) (h : n.name = "guard") (hk : ∀ c, n.children[0]? = some (some c) → Calm c) : Calm n
   | ifn (n : Node) (h : n.name = "if") (hk : ∀ c, some c ∈ n.children → Calm c) : Calm n
+  | arith (n : Node) (h : n.name = "plus" ∨ n.name = "minus" ∨ n.name = "times" ∨ n.name = "div" ∨ n.name = "divint")
+      (hk : ∀ c, some c ∈ n.children → Calm c) : Calm n
+  | assign (n lhs rhs : Node) (t : Ecal.Lex.Tok) (vb : List Nat) (h : n.name = ":=")
+      (h0 : n.children[0]? = some (some lhs)) (h1 : n.children[1]? = some (some rhs))
+      (hl : lhs.name = "identifier") (ht : lhs.tok = some t) (hc : lhs.children.isEmpty = true)
+      (hn : splitDots t.val = [vb]) (hr : Calm rhs) : Calm n
+
+/-- `child n i >>= k`: the child is one of the node's children; a missing child is an error that changes nothing -/
+theorem Pres.childThen (I : St → Prop) {α : Type} (n : Node) (i : Nat) (k : Node → M α)
+    (hk : ∀ c, n.children[i]? = some (some c) → Pres I (k c)) : Pres I (child n i >>= k) := by
+  intro s r s' hi hr
+  rw [runM_bind, runM_child] at hr
+  cases hc : n.children[i]? with
+  | none => simp only [hc] at hr; injection hr with _ h2; rw [← h2]; exact hi
+  | some o =>
+    cases o with
+    | none => simp only [hc] at hr; injection hr with _ h2; rw [← h2]; exact hi
+    | some c => simp only [hc] at hr; exact hk c hc s r s' hi hr
+
+/-- binary arithmetic: both operands are evaluated, nothing else touches the state -/
+theorem numOp_pres (I : St → Prop) (f sc : Nat) (n : Node) (op : Float → Float → Val)
+    (hev : ∀ c, some c ∈ n.children → Pres I (eval f sc c)) : Pres I (numOp (f + 1) sc n op) := by
+  unfold numOp
+  have tail : Pres I (do
+      let a ← eval f sc (← child n 0)
+      let b ← eval f sc (← child n 1)
+      match a, b with
+      | .num x, .num y => pure (op x y)
+      | .num _, _ => throw (rtErr "Operand is not a number" (← child n 1))
+      | _, _ => throw (rtErr "Operand is not a number" (← child n 0)) : M Val) := by
+    refine Pres.childThen _ n 0 _ (fun c0 h0 => ?_)
+    refine Pres.bind _ _ _ (hev c0 (List.mem_of_getElem? h0)) (fun a => ?_)
+    refine Pres.childThen _ n 1 _ (fun c1 h1 => ?_)
+    refine Pres.bind _ _ _ (hev c1 (List.mem_of_getElem? h1)) (fun b => ?_)
+    split
+    · exact Pres.pure _ _
+    · exact Pres.childThen _ n 1 _ (fun _ _ => Pres.throw _ _)
+    · exact Pres.childThen _ n 0 _ (fun _ _ => Pres.throw _ _)
+  split
+  · exact Pres.bind _ _ _ (Pres.throw _ _) (fun _ => tail)
+  · exact tail
+
+/-- unary plus / minus -/
+theorem numVal_pres (I : St → Prop) (f sc : Nat) (n : Node) (op : Float → Float)
+    (hev : ∀ c, some c ∈ n.children → Pres I (eval f sc c)) : Pres I (numVal (f + 1) sc n op) := by
+  unfold numVal
+  have tail : Pres I (do
+      let v ← eval f sc (← child n 0)
+      match v with
+      | .num x => pure (.num (op x))
+      | _ => throw (rtErr "Operand is not a number" (← child n 0)) : M Val) := by
+    refine Pres.childThen _ n 0 _ (fun c0 h0 => ?_)
+    refine Pres.bind _ _ _ (hev c0 (List.mem_of_getElem? h0)) (fun a => ?_)
+    split
+    · exact Pres.pure _ _
+    · exact Pres.childThen _ n 0 _ (fun _ _ => Pres.throw _ _)
+  split
+  · exact Pres.bind _ _ _ (Pres.throw _ _) (fun _ => tail)
+  · exact tail
+
+/-- the assignment of a plain variable is `setValue`: one variable write -/
+theorem identSet_plain_pres (L : List Nat) (f sc : Nat) (lhs : Node) (t : Ecal.Lex.Tok) (v : Val)
+    (ht : lhs.tok = some t) (hc : lhs.children.isEmpty = true) : Pres (IL L) (identSet f sc lhs v) := by
+  cases f with
+  | zero => unfold identSet; exact Pres.throw _ _
+  | succ f =>
+    unfold identSet
+    intro s r s' hi hr
+    rw [runM_bind, runM_tokOf, ht] at hr
+    simp only [hc, if_true] at hr
+    obtain ⟨w1, w2⟩ := setValue_wf sc t.val v s s' r hi.1 hr
+    exact ⟨w1, fun i hiL => by rw [w2]; exact hi.2 i hiL⟩
 
 /-- the branches of an `if`: building them changes nothing, and each is an evaluation with smaller fuel -/
 theorem ifBranches_spec (L : List Nat) (bs : Nat) : ∀ (f : Nat) (l : List (Option Node)),
@@ -252,5 +324,46 @@ theorem eval_calm_preserves : ∀ (f : Nat) (n : Node) (L : List Nat) (sc : Nat)
             subst e
             exact ⟨ih f' (Nat.lt_succ_of_lt hlt) g (c :: L) c (hk g hg) (by simp),
                    ih f' (Nat.lt_succ_of_lt hlt) b (c :: L) c (hk b hbm) (by simp)⟩
+
+      | arith n h hk =>
+        have hev : ∀ f', f' < f + 1 → ∀ c, some c ∈ n.children → Pres (IL L) (eval f' sc c) :=
+          fun f' hlt c hc => ih f' hlt c L sc (hk c hc) hsc
+        have hop : ∀ op, Pres (IL L) (numOp f sc n op) := by
+          intro op
+          cases f with
+          | zero => unfold numOp; exact Pres.throw _ _
+          | succ f' => exact numOp_pres _ f' sc n op (hev f' (by omega))
+        have hval : ∀ op, Pres (IL L) (numVal f sc n op) := by
+          intro op
+          cases f with
+          | zero => unfold numVal; exact Pres.throw _ _
+          | succ f' => exact numVal_pres _ f' sc n op (hev f' (by omega))
+        unfold eval
+        rcases h with h | h | h | h | h <;> simp only [h]
+        · split <;> first | exact hval _ | exact hop _
+        · split <;> first | exact hval _ | exact hop _
+        · exact hop _
+        · exact hop _
+        · exact hop _
+      | assign n lhs rhs t vb h h0 h1 hl ht hc hn hr =>
+        unfold eval
+        simp only [h]
+        cases f with
+        | zero => unfold evalAssign; exact Pres.throw _ _
+        | succ f' =>
+          have hlhs : Calm lhs := Calm.var lhs t vb hl ht hc hn
+          intro s r s' hi hrun
+          unfold evalAssign at hrun
+          rw [runM_bind, runM_child, h0] at hrun
+          have hnl : (lhs.name == "let") = false := by rw [hl]; decide
+          have hid : (lhs.name == "identifier") = true := by rw [hl]; decide
+          simp only [hnl, hid, Bool.false_eq_true, if_false, if_true, pure_bind, List.length_singleton,
+            beq_self_eq_true] at hrun
+          refine (Pres.bind _ _ _ (ih f' (by omega) lhs L sc hlhs hsc) (fun _ =>
+            Pres.childThen _ n 1 _ (fun c hcc => ?_))) s r s' hi hrun
+          have e : c = rhs := by rw [h1] at hcc; injection hcc with e; injection e with e; exact e.symm
+          subst e
+          exact Pres.bind _ _ _ (ih f' (by omega) c L sc hr hsc) (fun v =>
+            Pres.bind _ _ _ (identSet_plain_pres L f' sc lhs t v ht hc) (fun _ => Pres.pure _ _))
 
 end Ecal.Ev
